@@ -49,4 +49,22 @@ PROPS = {
         "trusted": [SHA, "num-bigint from_bytes_le / to_bytes_le / modpow / * + - % as modelled in model/Bigint.v", "primality certificate chain for N checked by vm_compute (primes/PockZ.v; MathComp ssreflect used for Pocklington's criterion)"],
         "assumptions": ["the documented panic of into_proof (server's own B = 0 mod N) is excluded by hypothesis", "usernames/passwords enter the model as their normalised text; normalisation itself is C13"],
     },
+    "C08": {
+        "prop_files": ["props/C08.v"],
+        "consts": ["tbc_seed_enc", "tbc_seed_dec", "proof_length"],
+        "runner": "run_C08",
+        "byte_exact": True,
+        "rule": "random and edge-case 40-byte session keys x streams (lengths 0,1,19,20,21,39..41,255..257, random) x random partitions incl. empty chunks, both halves, through model (concrete HMAC-SHA1 in Coq) and implementation, comparing bytes, derived key and (index, previous); implementation-only oracles: independent HMAC key derivation, spec recurrence, round trip with independent chunkings, exhaustive 20x256x256 step table.",
+        "trusted": [SHA],
+        "assumptions": ["bytes are modelled as N < 256; u8 arithmetic rendered with explicit mod 256 and explicit overflow panics"],
+    },
+    "C06": {
+        "prop_files": ["props/C06.v"],
+        "consts": ["proof_length", "session_key_length", "wrath_S", "wrath_R", "tbc_seed_enc", "tbc_seed_dec"],
+        "runner": "run_C06",
+        "byte_exact": True,
+        "rule": "all three modules (vanilla, tbc, wrath) x sessions with names of every length, seeds from {0,1,0xFFFFFFFF,0x80000000,...} and random, equal seeds, swapped seeds (own seed injected through the RNG tape at ProofSeed::new): client proof and seed() accessor, server accept, and refusing perturbations (proof bit flips - all 160 in thorough -, either seed, swapped seeds, one key bit, other username, case-only change of the name); implementation-only oracle: spec value, agreement, bit flip payloads, seed order, key binding.",
+        "trusted": [SHA],
+        "assumptions": ["the crypto object handed out is compared only through the proof/accept decision here; its behaviour is C07-C10"],
+    },
 }
